@@ -26,6 +26,7 @@ UNITS = {
     'TXNCOORD': dict(template='txncoord.rs', rlimit=30),
     'RECVLOOP': dict(template='recvloop.rs', rlimit=30),
     'MESSAGE': dict(template='message.rs', rlimit=30),
+    'SEQACCESS': dict(template='seqaccess.rs', rlimit=30),
 }
 
 VARW = 'PROVED for every value (units SERSTR + READERS): strings, symbols and binaries of ANY length and content, outside and inside arrays -- the serializer writes a valid str8/str32, sym8/sym32, vbin8/vbin32 encoding whose size field counts octets ([C05.*.encoding], [C05.*.array-element]); the decoder reads both width variants by the AMQP layout and accepts every one of them from a reliable reader ([C05.*.decoding], [C05.*.every-variant-accepted]); lemma_var_round_trip joins the two: decode(encode(x) ++ rest) == x, consuming exactly the encoding; serialized_size agrees with the octets written ([C20.size.*]); compound headers are decoded to the body length and count the layout defines ([C05.compound.header-decoding])'
@@ -79,7 +80,7 @@ PROPS = {
             'DeliveryFut::poll (Pin/poll) and interleaving of dispositions with further sends are not decided',
             'that UnsettledMessage::settle_with_state is actually invoked on the entry removed by LinkRelay::on_incoming_disposition is visible in the extracted text but is not an obligation: a by-value call leaves no ghost trace; what IS proved: the entry removed is the one under the disposition\'s tag, and settle_with_state resolves its own channel with exactly the state given']),
     'C03': dict(
-        units=['SERHDR', 'SERSTR', 'READERS', 'MESSAGE'], kani=K_RT, level='proof', title='Codec round trip (fixed- and variable-width primitives, compound headers)',
+        units=['SERHDR', 'SERSTR', 'READERS', 'MESSAGE', 'SEQACCESS'], kani=K_RT, level='proof', title='Codec round trip (fixed- and variable-width primitives, compound headers)',
         lemmas={'READERS': ['lemma_var_round_trip', 'lemma_be32_inverse'], 'MESSAGE': ['lemma_message_round_trip', 'lemma_run', 'lemma_fold_concat', 'lemma_fold_opt']},
         assumptions=[VARW,
             'PROVED for every value: the fixed-width primitives listed in the obligations (Kani harnesses, loop-free / fully unwound over the full domain) and the compound header writers (Verus)',
@@ -104,7 +105,7 @@ PROPS = {
             'compound header writers: the call-site fact count <= byte length (every element occupies at least one byte in this implementation) is assumed; the serde SerializeSeq/Map impls that call them are not under contract'] + ['to_value/from_value vs bytes is not covered yet',
             'PROVED for every input (unit READERS): SliceReader and IoReader satisfy ONE Read contract (peek/peek_bytes consume nothing, next/read_exact/read_bytes consume exactly what they return, in order), so decoding from a slice and from a stream see the same bytes and leave the same bytes behind; the LazyValue/byte_buf scanner takes exactly one encoded value (length by the AMQP constructor rule) -- the decoders built on top (de.rs) are not under contract']),
     'C04': dict(
-        units=['READERS'], kani=K_TOTAL3 + K_HDR_QUICK + K_HDR_THOROUGH, level='proof', title='Decoding untrusted bytes (reader layer proved; decoders bounded)',
+        units=['READERS', 'SEQACCESS'], kani=K_TOTAL3 + K_HDR_QUICK + K_HDR_THOROUGH, level='proof', title='Decoding untrusted bytes (reader layer proved; decoders bounded)',
         probes=[
             dict(name='nest_list32', target='serde_amqp::from_slice::<Value>', args=['nest', '100000'],
                  claim='decoding 100000 nested list32 headers (a 900 KB input) as Value returns (Ok or Err) instead of exhausting an 8 MiB stack',
